@@ -54,3 +54,14 @@ Theorem C07_refines_on_code : forall reenc : str -> str,
 Proof. exact Server_on_code.refines_on_code. Qed.
 Print Assumptions C07_refines_on_code.
 
+(* ---- tie to the code (server/tls_protocol.py: every plaintext slice OpenSSL yields reaches the inner protocol, in order, in the read it arrived in): theorems of coq/Equiv/EquivTls.v (statements there), re-checked against the definitions
+   regenerated from /repo's working tree; see DESIGN.md 11.8 ---- *)
+From NV Require Equiv.EquivTls.
+Theorem C07_code_tstep_tie : ltac:(let t := type of @EquivTls.tstep_tie in exact t).
+Proof. exact (@EquivTls.tstep_tie). Qed.
+Print Assumptions C07_code_tstep_tie.
+
+Theorem C07_code_trun_tie : ltac:(let t := type of @EquivTls.trun_tie in exact t).
+Proof. exact (@EquivTls.trun_tie). Qed.
+Print Assumptions C07_code_trun_tie.
+
